@@ -130,7 +130,8 @@ class SimNet:
         self.clock = Clock(now)
         # default answer of recv(): 'whole' = everything queued (up to n); 'segment' = at most
         # one command's reply per recv (pipelined replies arrive in separate TCP segments);
-        # 'byte' = one byte per recv.  A configuration, not a deviation.
+        # 'byte' = one byte per recv; 'lf' = every piece ends just before a line feed.
+        # A configuration, not a deviation.
         self.delivery = delivery
         self.chooser = chooser
         self.menu = menu if menu is not None else MENU_CONN
@@ -516,7 +517,13 @@ class SimSocket:
             if 0 < net.cut_next < limit:
                 limit = net.cut_next
             net.cut_next = None
-        if net.delivery != "whole":
+        if net.delivery == "lf":
+            # every piece ends just before a line feed (so "\r" and "\n" of a terminator never arrive together)
+            data = conn.peek(limit)
+            p = data.find(b"\n", 1)
+            if p != -1:
+                limit = p
+        elif net.delivery != "whole":
             limit = 1 if net.delivery == "byte" else min(limit, len(conn.pipe[0][0]))
         c = "ok"
         if net.chooser is not None:
